@@ -640,6 +640,7 @@ func TestC09(t *testing.T) {
 		return catalogSortCase{Keys: core.Pick(s, []string{"float64", "pointer"}, "keys"), Order: enumOrderedSubset(s, 4, "key")}
 	}, Exec: execCatalogSort, NoJournal: true}, 0)
 	core.Rapid(r, core.Check[elemSortCase]{Name: "element-types", Gen: genElemSort(24), Exec: execElemSort}, r.N(3000, 30000))
+	core.Rapid(r, core.Check[resortCase]{Name: "values-that-change-between-sorts", Gen: genResort, Exec: execResort}, r.N(1500, 15000))
 	core.Rapid(r, core.Check[defaultSortCase]{Name: "default-ranker", Gen: func(s core.Source) defaultSortCase {
 		c := defaultSortCase{Elem: core.Pick(s, []string{"int", "string"}, "elem"), Keys: []int{}}
 		n := s.Choose(40, "len")
